@@ -405,6 +405,22 @@ def run(ctx):
         impl = [o[:-len("race=0")] + "race=1" if o.endswith(" race=0") else o for o in impl]
     chk_lines = ["chk %s | %s" % (l, o) for l, o in zip(lines, impl)]
     verdicts = ctx.check_pred(chk_lines, shards=min(8, ctx.cores))
+    # Verdicts that rest on a time bound (a refresh inside its window, a peer close noticed within the check interval,
+    # silence after Close, goroutines gone, no UDP loss) are judged on a loaded machine: such a session is run a second
+    # time, alone, and the second observation stands (only positive evidence counts). Verdicts that are evidence in
+    # themselves (malformed bytes, a send that never returned, a race report, a panic ...) are never retried.
+    TIMED = {"template-not-refreshed", "peer-close-not-noticed", "peer-close-noticed-late", "send-succeeded-after-peer-close",
+             "datagram-after-close", "bytes-after-close", "app-message-missing", "close-did-not-return", "background-goroutine-left",
+             "send-failed-while-open"}
+    retried = [i for i, v in enumerate(verdicts) if (v or "").startswith("fails ") and (v.split(" ") + [""])[1] in TIMED]
+    for i in retried[:6]:
+        o2, e2, rc2, race2 = run_harness(ctx.harness, [lines[i]], ctx.workdir, "retry%d" % i, 1, 180)
+        if rc2 == 0 and len(o2) == 1:
+            v2 = ctx.check_pred(["chk %s | %s" % (lines[i], o2[0])], shards=1)[0]
+            notes.append("session %d re-run alone after the time-bound verdict `%s`: second verdict `%s`" % (i, verdicts[i], v2))
+            impl[i], verdicts[i] = o2[0], v2
+            if race2.strip():
+                race += race2
     samples = []
     for ci, (c, o, m, v) in enumerate(zip(cases, impl, model, verdicts)):
         v = v or "missing"
